@@ -7,9 +7,13 @@ ID = 'C20'
 GENS = []
 TARGETS = ['BC.Props.C20']
 PROP_FILES = ['BC/Props/C20.lean']
+# source ties: function bodies regenerated from the Python source by translate/t_funcs.py, proved equal to the model functions
+SRC = {'module': 'BC.Props.C20Src', 'file': 'BC/Props/C20Src.lean',
+       'theorems': ['C20_src_apex_loop', 'C20_src_apex_index', 'C20_src_distance_cond', 'C20_src_time_cond', 'C20_src_nearest', 'C20_src_deviation']}
 THEOREMS = ['C20_scan_spec', 'C20_bisect_first_true', 'C20_distance', 'C20_time_strict', 'C20_nearest',
             'C20_nearest_deviation', 'C20_nearest_deviation_iff', 'C20_apex']
 STATEMENTS = {
+    'C20_src_nearest': 'SOURCE TIE (all C20_src_*): helpers.py — the apex bisection (bracket, condition, rising test, moves), the monotone conditions of the distance and strict-time look-ups, the key, neighbour comparison and deviation test of the nearest-time look-up, executed symbolically from the Python source on every run, are the pieces of apexLoop / apexIndex / findIndexForDistance / findIndexForTimeStrict / nearestIndex / findIndexForTimeNearest',
     'C20_scan_spec': 'scanFirst = -1 iff no row satisfies cond; = k iff k is the first row satisfying it',
     'C20_bisect_first_true': 'cond monotone along the rows -> bisect-based search = sequential scan (any length incl. 0, 1)',
     'C20_distance': 'non-decreasing distances (repeats allowed) -> find_index_of_point_for_distance = index_at_distance scan',
